@@ -3,7 +3,7 @@
 set -euo pipefail
 cd "$(dirname "$0")"
 export GOFLAGS=-mod=mod GOPROXY=off GOSUMDB=off GOTOOLCHAIN=local GOCACHE=${GOCACHE:-/root/.cache/go-build}
-[ -f overlay/overlay.json ] || overlay/render.sh
+overlay/render.sh
 mkdir -p bin
 cp /repo/go.sum go.sum.repo 2>/dev/null || true
 go1.26.8 test -c -tags verif -overlay overlay/overlay.json -o bin/sim.test ./sim
